@@ -1,4 +1,4 @@
-package main
+package samequery
 
 // sameQueryOracle: the compiled regular expressions are cached per compiled query. A builtin
 // call must give, inside a query that makes OTHER regex calls before it, what it gives in a
@@ -14,12 +14,15 @@ import (
 	"verifharness/common"
 )
 
-func sameQueryOracle(ctx *common.Ctx) {
-	orc := ctx.NewOracle("same-query", "pairs (A, B) of regex builtin calls (test/match/scan/splits/split/sub/gsub/capture with literal regexes and flags chosen so that regex+flags texts collide: a;g / ag, b;ig / bi;g / big, a;m / am, A;i / Ai …) compiled as ONE query `[[A], [B]]` and run on a subject vs `[A]` and `[B]` compiled alone; also the same query run twice and on two subjects; distinct = distinct (A, B, subject)")
+// Run adds the oracle `same-query` to the check.
+func Run(ctx *common.Ctx) {
+	orc := ctx.NewOracle("same-query", "pairs (A, B) of regex builtin calls (test/match/scan/splits/split/sub/gsub/capture with literal regexes and flags chosen so that regex+flags texts collide: a;g / ag, b;ig / bi;g / big, a;m / am, A;i / Ai …, and calls with unsupported flag strings after the same regex was used with valid ones) compiled as ONE query `[[A], [B]]` and run on a subject vs `[A]` and `[B]` compiled alone; also the same query run twice and on two subjects; distinct = distinct (A, B, subject)")
 	calls := []string{
 		`test("a")`, `test("a"; "g")`, `test("ag")`, `[match("a"; "g")]`, `[match("ag")]`, `[scan("a")]`, `[scan("ag")]`, `[splits("a")]`, `[splits("ag")]`, `sub("ag"; "x")`, `gsub("a"; "x")`, `gsub("ag"; "x")`,
 		`test("b"; "ig")`, `test("bi"; "g")`, `test("big")`, `[match("b"; "gi")]`, `[scan("bi")]`, `[scan("b"; "i")]`,
 		`test("a"; "m")`, `test("am")`, `test("A"; "i")`, `test("Ai")`, `test("ai")`, `[match("a"; "i")]`, `[scan("a"; "i")]`, `[scan("ai")]`, `split("a"; null)`, `split("a"; "g")`, `split("ag"; null)`,
+		// flag strings the flag check must reject, after the same regex was used with valid ones
+		`test("a"; "z")`, `test("a"; "gz")`, `[match("a"; "q")]`, `test("ag"; "z")`, `test("a"; 1)`, `[scan("a"; "z")]`, `sub("a"; "x"; "z")`,
 		`test("^a$"; "x")`, `test("^a$x")`, `test("a"; "s")`, `test("as")`, `test("a"; "n")`, `test("an")`, `[match("(?<n>a)"; "g")]`, `capture("(?<n>a)g")`, `test("a"; null)`, `test("a"; "")`, `test("a."; "s")`, `test("a.s")`,
 	}
 	subjects := []string{"a", "ag", "big", "AI am a bIg ag", "Ag\nas an a.s", ""}
